@@ -6,8 +6,8 @@ import rgrun
 import vlib
 
 META = {
-    "text": "TLC evaluates, for every pattern of a capture-group family (optional, nested, named, empty-matching groups, alternation, word boundary, anchors) x every replacement template up to length 2 over {$,{,},1,2,x,-,0} plus picked longer ones (character level, so the reference parser of interpolate.rs is inside the loop) x a catalogue of line contents, the successive matches with captures (RegexSem), the template expansion per match and the replace-all of the line (Printer.tla); the predictions are replayed on rg -r, rg -o -r, --column, -w, --crlf, and -v with context (lines without a match must stay unaltered).",
-    "note": "Patterns/templates bounded by specs/regex/MCPrinter.tla; symbols abstract bytes; -U replacement is covered only through the line-oriented path.",
+    "text": "TLC evaluates, for every pattern of a capture-group family (optional, nested, named, empty-matching groups, alternation, word boundary, anchors) x every replacement template up to length 2 over {$,{,},1,2,x,-,0} plus picked longer ones (character level, so the reference parser of interpolate.rs is inside the loop) x a catalogue of line contents, the successive matches with captures (RegexSem), the template expansion per match and the replace-all of the line (Printer.tla); the predictions are replayed on rg -r, rg -o -r, --column, -w, --crlf, and -v with context (lines without a match must stay unaltered); under -U the successive multi-line matches computed by GrepModelML give the expected replaced blocks for rg -U -r.",
+    "note": "Patterns/templates bounded by specs/regex/MCPrinter.tla and MCGrepML.tla; symbols abstract bytes; under -U the template is <$0> (whole-match reference) over the C13 pattern family.",
     "technique": "TLA+ executable semantics of matching, capture groups and template interpolation enumerated by TLC, replayed on the rg binary",
 }
 
@@ -147,14 +147,101 @@ def main(tier):
                                 "example_line": rr.sym_bytes(lines[40]).decode("latin1"), "replaced": rr.items_bytes(r["lines"][40]["r"]).decode("latin1")})
     finally:
         sc.close()
+    ml_part(chk, tier)
     chk.exhaustive = True
     return chk.finish()
+
+
+def ml_expected(inp, ms, left, right):
+    """-U -r: the lines covered by the matches, merged into blocks, each match replaced by left + match + right."""
+    starts = [0] + [i + 1 for i, b in enumerate(inp) if b == 10 and i + 1 < len(inp)]
+
+    def line_of(pos):
+        k = 0
+        for i, st in enumerate(starts):
+            if st <= pos:
+                k = i
+        return k
+    blocks = []
+    for s0, e0 in ms:
+        a, b = line_of(s0), line_of(e0 - 1)
+        if blocks and a <= blocks[-1][1] + 1:      # overlapping or touching line ranges form one block (C13)
+            blocks[-1][1] = max(blocks[-1][1], b)
+            blocks[-1][2].append((s0, e0))
+        else:
+            blocks.append([a, b, [(s0, e0)]])
+    out = b""
+    for a, b, mm in blocks:
+        bs = starts[a]
+        be = starts[b + 1] if b + 1 < len(starts) else len(inp)
+        pos = bs
+        txt = b""
+        for s0, e0 in mm:
+            txt += inp[pos:s0] + left + inp[s0:e0] + right
+            pos = e0
+        txt += inp[pos:be]
+        if not txt.endswith(b"\n"):     # the printer terminates a record that does not end with the terminator
+            txt += b"\n"
+        out += txt
+    return out
+
+
+def ml_part(chk, tier):
+    """-U --replace: every block of lines covered by matches is printed with each match replaced (template <$0>)."""
+    res = vlib.tlc("regex/MCGrepML", "C09_ml", workers=12, timeout=3600)
+    if res.rc != 0:
+        raise vlib.ToolError("TLC failed on C09_ml:\n" + res.tail(40))
+    chk.add_tlc(res)
+    recs = [r for r in res.emits() if not r["scn"]["cfg"]["inv"] and not r["scn"]["cfg"]["pass"] and r["ms"]
+            and all(m[0] < m[1] for m in r["ms"]) and not r["scn"]["o"]["word"] and not r["scn"]["o"]["line"]]
+    if tier == "quick":
+        recs = recs[vlib.seed() % 2::2]
+    sc = rgrun.Scratch("c19ml")
+    try:
+        jobs = []
+        for k, r in enumerate(recs):
+            inp = rr.sym_bytes(r["scn"]["inp"])
+            f = sc.write("d%d/f%d" % (k % 50, k), inp)
+            args = ["--no-config", "--color", "never", "-j1", "-U", "-N", "--replace=<$0>"]
+            if r["scn"]["o"]["dotall"]:
+                args.append("--multiline-dotall")
+            jobs.append({"args": args + ["-e", rr.render(r["scn"]["u"]), f], "_inp": inp, "_r": r})
+        outs = rgrun.run_many(jobs)
+        chk.evaluations += len(jobs)
+        for j, (rc, so, se) in zip(jobs, outs):
+            r = j["_r"]
+            exp = ml_expected(j["_inp"], r["ms"], b"<", b">")
+            if so != exp or rc != 0:
+                chk.violation({"variant": "ml_replace", "pattern": rr.render(r["scn"]["u"]), "opts": sorted(k for k, v in r["scn"]["o"].items() if v)},
+                              {"why": {"got": repr(so), "expected": repr(exp), "rc": rc}, "args": j["args"][:-1], "input": list(j["_inp"]),
+                               "matches": r["ms"]})
+            else:
+                chk.validated += 1
+                if len(r["ms"]) >= 2 or b"\n" in j["_inp"][r["ms"][0][0]:r["ms"][0][1]]:
+                    chk.nontrivial_case(json.dumps(["ml", r["scn"]["u"], r["scn"]["o"], r["scn"]["inp"]]))
+    finally:
+        sc.close()
 
 
 def replay(path):
     """Re-run the recorded scenario (pattern, options, template, variant) on the recorded catalogue; the expectation is the
     one TLC computed when the replay file was written."""
     rec = json.load(open(path))
+    if rec["sig"].get("variant") == "ml_replace":
+        vlib.build_rg()
+        sc = rgrun.Scratch("c19r")
+        try:
+            f = sc.write("f", bytes(rec["record"]["input"]))
+            rc, so, se = rgrun.run_many([{"args": rec["record"]["args"] + [f]}])[0]
+        finally:
+            sc.close()
+        exp = ml_expected(bytes(rec["record"]["input"]), rec["record"]["matches"], b"<", b">")
+        print(json.dumps({"args": rec["record"]["args"], "input": bytes(rec["record"]["input"]).decode("latin1"), "got": repr(so), "expected": repr(exp)}, indent=1))
+        if so != exp or rc != 0:
+            print("VIOLATION property=C19 replay=%s" % path)
+            return 1
+        print("replay: property holds on this scenario now")
+        return 0
     r, lines, v = rec["record"]["scenario"], rec["record"]["catalogue"], rec["record"]["variant"]
     vlib.build_rg()
     sc = rgrun.Scratch("c19r")
